@@ -137,7 +137,9 @@ type Recorder struct {
 	Calls   []Call
 	Resolve func(src string) (pfx bool, ns, n int, ok bool)
 	Undel   map[int]bool
-	hashes  map[string]int
+	// Classify, if set, replaces the default way a rule set is mapped to (content id, accepted)
+	Classify func(rs *config.RuleSet) (int, bool)
+	hashes   map[string]int
 	// Active is the ideal repository keyed by the raw source string
 	Active map[string]int
 }
@@ -176,8 +178,13 @@ func (r *Recorder) call(kind string, rs *config.RuleSet) Call {
 
 func (r *Recorder) load(kind string, rs *config.RuleSet) error {
 	c := r.call(kind, rs)
-	c.Cid = r.CidOfHash(rs.Hash)
-	c.Ok = rs.Version == config.CurrentRuleSetVersion
+	if r.Classify != nil {
+		c.Cid, c.Ok = r.Classify(rs)
+	} else {
+		c.Cid = r.CidOfHash(rs.Hash)
+		c.Ok = rs.Version == config.CurrentRuleSetVersion
+	}
+
 	r.Calls = append(r.Calls, c)
 
 	if !c.Ok {
